@@ -15,6 +15,7 @@ hypothesis is checked on the values the real code returns by the correspondence.
 -/
 import SharkVerif.Lemmas.LinReg
 import SharkVerif.Lemmas.Stats
+import SharkVerif.Lemmas.Linear
 import Mathlib.Tactic.NormNum
 import Mathlib.Tactic.IntervalCases
 namespace SharkVerif.C15
@@ -143,6 +144,149 @@ theorem unitinterval_pinned_out_of_range :
     ((unitIntervalPinned [[[1], [1]]]).apply 1 [1]).at 0 = -1 / 2 := by
   rw [unitinterval_pinned_constant_column _ 1 0 (by omega) (by norm_num [colMin, colMax, Vec.at])]
   norm_num [colMin, Vec.at]
+
+
+/-! ## Whitening -/
+
+/-- **`NormalizeComponentsWhitening` / `NormalizeComponentsZCA`** (every dataset, partition,
+target variance `t = sqrtT²`): if the factor `C` (`r × d`) delivered by the decomposition of
+the covariance satisfies its specification `C·Cov·Cᵀ = I_r`, the transformed training data
+have mean 0 and covariance `t·I_r`.  (For a rank-deficient covariance `r` is the rank and
+`C` comes from the pivoted Cholesky factor; the specification is what the correspondence
+checks on the returned matrix.) -/
+theorem whitening_output (factor : Nat → (Nat → Nat → Rat) → Nat × (Nat → Nat → Rat)) (sqrtT t : Rat)
+    (bs : List (List Vec)) (d : Nat) (hne : bs.flatten ≠ []) (hs : sqrtT * sqrtT = t)
+    (hC : ∀ a, a < (factor d (covariance bs)).1 → ∀ b, b < (factor d (covariance bs)).1 →
+      rsum d (fun i => rsum d (fun j =>
+        (factor d (covariance bs)).2 a i * covariance bs i j * (factor d (covariance bs)).2 b j))
+        = if a = b then 1 else 0) :
+    let m := whitening factor sqrtT bs d
+    let out := m.applyData d bs
+    ∀ a, a < m.rows → ∀ b, b < m.rows →
+      mean out a = 0 ∧ covariance out a b = if a = b then t else 0 := by
+  intro m out a ha b hb
+  have hTa : ∀ x ∈ bs.flatten, (m.apply d x).at a = rsum d (fun j => m.W a j * x.at j) + m.b a :=
+    fun x _ => linearModel_apply_at m d a x ha
+  have hTb : ∀ x ∈ bs.flatten, (m.apply d x).at b = rsum d (fun j => m.W b j * x.at j) + m.b b :=
+    fun x _ => linearModel_apply_at m d b x hb
+  constructor
+  · show mean (bs.map fun B => B.map (m.apply d)) a = 0
+    rw [mean_linear bs _ d a _ _ hne hTa]
+    show rsum d (fun j => (factor d (covariance bs)).2 a j * sqrtT * mean bs j)
+      + -(rsum d fun j => (factor d (covariance bs)).2 a j * sqrtT * mean bs j) = 0
+    ring
+  · show covariance (bs.map fun B => B.map (m.apply d)) a b = _
+    rw [covariance_linear bs _ d a b _ _ _ _ hne hTa hTb]
+    have : ∀ i, i < d → rsum d (fun j => m.W a i * covariance bs i j * m.W b j)
+        = t * rsum d (fun j => (factor d (covariance bs)).2 a i * covariance bs i j * (factor d (covariance bs)).2 b j) := by
+      intro i _
+      rw [← rsum_mul_left]
+      apply rsum_congr; intro j _
+      show (factor d (covariance bs)).2 a i * sqrtT * covariance bs i j * ((factor d (covariance bs)).2 b j * sqrtT) = _
+      rw [← hs]; ring
+    rw [rsum_congr this, rsum_mul_left, hC a ha b hb]
+    by_cases e : a = b <;> simp [e]
+
+/-- the general fact behind it: covariance of a linear image of the data is `W·Cov·W'ᵀ` -/
+theorem linear_image_covariance (m : LinearModel) (bs : List (List Vec)) (d a b : Nat) (ha : a < m.rows)
+    (hb : b < m.rows) (hne : bs.flatten ≠ []) :
+    mean (m.applyData d bs) a = rsum d (fun j => m.W a j * mean bs j) + m.b a
+    ∧ covariance (m.applyData d bs) a b = rsum d (fun i => rsum d (fun j => m.W a i * covariance bs i j * m.W b j)) :=
+  ⟨mean_linear bs _ d a _ _ hne (fun x _ => linearModel_apply_at m d a x ha),
+   covariance_linear bs _ d a b _ _ _ _ hne (fun x _ => linearModel_apply_at m d a x ha)
+     (fun x _ => linearModel_apply_at m d b x hb)⟩
+
+/-! ## Principal component analysis -/
+
+/-- **Encoder / decoder = orthogonal projection** (every dimension `n`, number of components `m`,
+mean `μ`, input `x`): if the first `m` directions (columns of `V`, as the eigen-solver
+specification promises) are orthonormal then
+(1) encoding a decoded code returns the code, so `decoder ∘ encoder` is idempotent,
+(2) the reconstruction error `x − dec(enc x)` is orthogonal to every direction, and
+(3) `dec(enc x)` is the point of `μ + span(V)` closest to `x`. -/
+theorem pca_projection (V : Nat → Nat → Rat) (mu : Nat → Rat) (n m : Nat) (h : Orthonormal V n m) (x : Nat → Rat) :
+    (∀ z : Nat → Rat, ∀ i, i < m → pcaEnc V mu n (pcaDec V mu m z) i = z i)
+    ∧ (∀ i, i < m → rsum n (fun j => V j i * (x j - pcaDec V mu m (pcaEnc V mu n x) j)) = 0)
+    ∧ (∀ z : Nat → Rat,
+        rsum n (fun j => (x j - pcaDec V mu m (pcaEnc V mu n x) j) * (x j - pcaDec V mu m (pcaEnc V mu n x) j))
+          ≤ rsum n (fun j => (x j - pcaDec V mu m z j) * (x j - pcaDec V mu m z j))) :=
+  ⟨fun z i hi => enc_dec V mu n m h z i hi, fun i hi => residual_orthogonal V mu n m h x i hi,
+   fun z => best_approximation V mu n m h x z⟩
+
+/-- `pcaEnc` / `pcaDec` are the linear models that `PCA::encoder` / `PCA::decoder` install -/
+theorem pca_models_eval (V : Nat → Nat → Rat) (mu : Nat → Rat) (n m : Nat) (x z : Vec) (i j : Nat) :
+    (pcaEncoder V mu n m).eval n x i = pcaEnc V mu n x.at i
+    ∧ (pcaDecoder V mu n).eval m z j = pcaDec V mu m z.at j := by
+  constructor
+  · unfold LinearModel.eval pcaEncoder pcaEnc; rfl
+  · unfold LinearModel.eval pcaDecoder pcaDec; rfl
+
+/-- **Both branches of `PCA::setData` agree** (eigen-relation `XᵀX` vs `XXᵀ`): for a centred
+design matrix `X` (`l × n`), if `u` is an eigenvector of `S = XXᵀ/l` with eigenvalue `λ`
+(small-sample branch) then the lifted direction `Xᵀu` is an eigenvector of the covariance
+`C = XᵀX/l` (standard branch) with the same eigenvalue, and lifted directions satisfy
+`(Xᵀu)·(Xᵀu') = l·λ'·(u·u')`: orthogonal eigenvectors lift to orthogonal directions of squared
+norm `l·λ` — which is 0 when `λ = 0`, the case in which the C++ normalisation divides 0 by 0
+(finding F-C15-3). -/
+theorem pca_small_sample_agrees (X : Nat → Nat → Rat) (l n : Nat) (hl : l ≠ 0) (u u' : Nat → Rat) (lam lam' : Rat)
+    (hu : ∀ a, a < l → rsum l (fun b => (rsum n (fun j => X a j * X b j) / (l : Rat)) * u b) = lam * u a)
+    (hu' : ∀ a, a < l → rsum l (fun b => (rsum n (fun j => X a j * X b j) / (l : Rat)) * u' b) = lam' * u' a) :
+    (∀ i, rsum n (fun j => (rsum l (fun a => X a i * X a j) / (l : Rat)) * rsum l (fun b => X b j * u b))
+        = lam * rsum l (fun a => X a i * u a))
+    ∧ rsum n (fun j => rsum l (fun a => X a j * u a) * rsum l (fun b => X b j * u' b))
+        = (l : Rat) * lam' * rsum l (fun a => u a * u' a) :=
+  ⟨fun i => lift_eigen X l n u lam hu i, lift_inner X l n hl u u' lam' hu'⟩
+
+/-! ## Weighted training (LDA) -/
+
+/-- **Weights are scale invariant**: multiplying all example weights by `s ≠ 0` (in particular
+`s > 0`) changes neither the weighted class means, nor the weighted pooled covariance
+(with regularisation), nor the class priors of `LDA::train(WeightedLabeledData)` — for every
+dataset, batch partition, number of classes — hence not the system `z·Cov = m` the rule is solved from. -/
+theorem weights_scale_invariant (bs : WCData) (s : Rat) (hs : s ≠ 0) (classes : Nat) (reg : Rat) (c i j : Nat) :
+    wldaMean (scaleWeights s bs) c j = wldaMean bs c j
+    ∧ wldaCov (scaleWeights s bs) classes reg i j = wldaCov bs classes reg i j
+    ∧ wldaPrior (scaleWeights s bs) c = wldaPrior bs c := by
+  have hsum : sumOfWeights (scaleWeights s bs) = s * sumOfWeights bs := by
+    unfold sumOfWeights scaleWeights
+    rw [bsum_eq_flatten, bsum_eq_flatten, flatten_map_map, lsum_map, lsum_mul_left]
+  have hcw : ∀ c, classWeight (scaleWeights s bs) c = s * classWeight bs c := by
+    intro c
+    unfold classWeight scaleWeights
+    rw [bsum_eq_flatten, bsum_eq_flatten, flatten_map_map, lsum_map, ← lsum_mul_left]
+    exact lsum_congr (fun p _ => by by_cases h : p.2.1 = c <;> simp [h])
+  have hmean : ∀ c j, wldaMean (scaleWeights s bs) c j = wldaMean bs c j := by
+    intro c j
+    unfold wldaMean
+    rw [hcw c]
+    have : bsum (scaleWeights s bs) (fun p => if p.2.1 = c then p.2.2 * p.1.at j else 0)
+        = s * bsum bs (fun p => if p.2.1 = c then p.2.2 * p.1.at j else 0) := by
+      unfold scaleWeights
+      rw [bsum_eq_flatten, bsum_eq_flatten, flatten_map_map, lsum_map, ← lsum_mul_left]
+      exact lsum_congr (fun p _ => by by_cases h : p.2.1 = c <;> simp [h]; ring)
+    rw [this, mul_div_mul_left _ _ hs]
+  refine ⟨hmean c j, ?_, ?_⟩
+  · unfold wldaCov
+    rw [hsum]
+    have h2 : bsum (scaleWeights s bs) (fun p => p.2.2 * (p.1.at i * p.1.at j))
+        = s * bsum bs (fun p => p.2.2 * (p.1.at i * p.1.at j)) := by
+      unfold scaleWeights
+      rw [bsum_eq_flatten, bsum_eq_flatten, flatten_map_map, lsum_map, ← lsum_mul_left]
+      exact lsum_congr (fun p _ => by ring)
+    rw [h2, mul_div_mul_left _ _ hs]
+    have h3 : ∀ c, c < classes →
+        classWeight (scaleWeights s bs) c / (s * sumOfWeights bs) * (wldaMean (scaleWeights s bs) c i * wldaMean (scaleWeights s bs) c j)
+        = classWeight bs c / sumOfWeights bs * (wldaMean bs c i * wldaMean bs c j) := by
+      intro c _
+      rw [hcw c, hmean c i, hmean c j, mul_div_mul_left _ _ hs]
+    rw [rsum_congr h3]
+  · unfold wldaPrior
+    rw [hcw c, hsum, mul_div_mul_left _ _ hs]
+
+/-- non-vacuity of the hypotheses of `pca_projection`: the two unit vectors of ℚ² -/
+example : Orthonormal (fun j i => if j = i then 1 else 0) 2 2 := by
+  intro a ha b hb
+  interval_cases a <;> interval_cases b <;> norm_num [rsum]
 
 /-! ## Linear (ridge) regression -/
 
